@@ -18,8 +18,8 @@ def run(ctx):
     ctx.require_coverage(r, ["Read"], "MC_Config")
     g = ctx.tlc(SPEC, "Gen_Config", cfg="Gen_Config", workers=1, label="Gen_Config", dump_trace=False, timeout=900)
     cases = ctx.read_emitted(g, "cases.ndjson")
-    if len(cases) != 12288:
-        ctx.broken("expected 12288 generated cases, got %d" % len(cases))
+    if len(cases) != 24576:
+        ctx.broken("expected 24576 generated cases, got %d" % len(cases))
     if not ctx.thorough:
         import random
         cases = random.Random(ctx.seed).sample(cases, 700)
@@ -27,7 +27,7 @@ def run(ctx):
     ctx.absorb(go, require_evals=len(cases))
     return ctx.finish(
         level="model_checking",
-        rule="all 12288 combinations (quick: seeded sample of 700) of {testnet, developer} flags x {unset, file, flag (+ single-entry peers, + malformed contract address)} for peers, "
+        rule="all 24576 combinations (quick: seeded sample of 700) of {testnet, developer} flags x {unset, file, flag (+ single-entry peers, + malformed contract address)} for peers, "
              "Electrum URL and 4 contract addresses; non-trivial = at least one value left unset (a default must be chosen)",
         assumptions=["viper/pflag layering is trusted", "embedded default lists are read from config/_peers and config/_electrum_urls"],
         exhaustive=ctx.thorough)
